@@ -11,6 +11,8 @@ func TestVerifReplay(t *testing.T) {
 		"VerifC01Quick":    VerifC01Quick,
 		"VerifC01Thorough": VerifC01Thorough,
 		"VerifC17Walks":    VerifC17Walks,
+		"VerifC12SubmitQuick":    VerifC12SubmitQuick,
+		"VerifC12SubmitThorough": VerifC12SubmitThorough,
 		"VerifC06Quick":    VerifC06Quick,
 		"VerifC05Quick":    VerifC05Quick,
 		"VerifC17Walks2":   VerifC17Walks2,
